@@ -3,8 +3,11 @@
    Engine.v, well-formed or not), every configuration C (any attachment of void/bool apply, apply0,
    throwing actions, match-level actions, controls with/without unwind, raising failure hooks), every
    dyn d (apply mode, rewind mode, action family, control family), every fuel, cursor and input.
-   Specification side: ActionSpec.v (quiet, the protocol machine arun, survivors, PegA / peg_acts). *)
+   Specification side: ActionSpec.v (quiet, the protocol machine arun, survivors, PegA / peg_acts) and
+   ActionSpec2.v (PegT: the reference semantics over tables, all heads of the extended fragment; section 6). *)
 From PegtlV Require Import Base Decode Grammar Engine EngineFacts AtomFacts Spec Denote ExactSound ActionSpec ActionFacts ActionExact.
+From Coq Require Import Lia.
+From PegtlV Require Import RaiseSpec ActionSpec2 ActionExact2 ActionRef2.
 
 (* ---------- 1. no action while actions are disabled ---------- *)
 (* apply_mode::nothing and no enable<> / enable_action anywhere: not a single apply / apply0 / inline action *)
@@ -128,8 +131,13 @@ Print Assumptions C04_veto.
    (PegA: failing alternatives and look-ahead contribute nothing, look-ahead is evaluated with actions off, a
    vetoing action turns its rule into failure), rule by rule with the exact begin / end byte of every match,
    and the run consumed exactly what that derivation consumes.
-   The unrestricted statement (all heads: until, rep*, must, try_catch, state, action<>, enable/disable, inline
-   actions, match-level actions, anonymous rules with actions) is NOT proved here; those are covered by the
+   This theorem is kept as the statement against the SURFACE grammar (sexp).  Section 6 below proves the same
+   statement for the extended fragment (until, rep*, if_then_else, partial, strict, must / raise / if_must,
+   try_catch_return_false, action<>, enable / disable, actions on anonymous nodes) against the table-level reference
+   PegT, and C04_reference_ext_conservative shows that PegT agrees with PegA on the classical fragment.
+   Still NOT covered by an exactness statement: state<>, rematch, try_catch_raise_nested, inline actions (apply<>,
+   apply0<>, if_apply<>), match-level actions (change_*, enable_action / disable_action, limit_*, check_bytes),
+   throwing actions, raising failure hooks (must_if controls), the non-char atoms; those are covered by the
    protocol-level theorems 1-4 above, which hold for every table and configuration. *)
 Theorem C04_survivors_exact_partial :
   forall G g names C fam vt n, table_wf G -> action_cfg G names C fam vt -> action_tie G g names n = true ->
@@ -259,3 +267,232 @@ Proof.
   split; [vm_compute; tauto | vm_compute; reflexivity].
 Qed.
 Print Assumptions C04_example_survivors.
+
+(* ---------- 6. the central statement beyond the classical fragment ---------- *)
+(* Reference: ActionSpec2.PegT G att vt A fam r input offset verdict — the PEG formalism with semantic actions read
+   off the TABLE as pure syntax (no modes, cursors, events, fuel), verdicts TOk rest offset actions | TFail | TRaise.
+   Fragment (ActionSpec2.ta_table): every node has one of the heads
+       seq sor star/star_partial plus opt/partial at not_at                       (classical, any number of subs)
+       until<C> until<C,R> rep rep_opt rep_min_max if_then_else strict star_strict
+       disable enable action<F> control<K> must raise if_must try_catch_return_false
+       any one not_one range string eof success failure over char
+   with the right number of sub-rules, closed sub-rule ids, and the must<...> part of an if_must being a must node
+   without an action of its own.  Configurations (action_cfg2): void or bool (vetoing) apply / apply0 attached to ANY
+   control-enabled node (named or anonymous), in any action family, verdict a function of family, node and byte
+   span; no throwing action, no match-level action, no raising failure hook.
+   Inside the fragment: every apply mode, rewind mode, action family, control family, initial position, fuel, input.
+   Side condition rmm_stable: for the sub-rule R of a rep_min_max node, "R fails with actions on" implies "R fails
+   with actions off".  It is void when the table has no rep_min_max (C04_rmm_stable_no_rep_min_max) and it cannot be
+   dropped: see C04_rep_min_max_doc_equivalence_refuted (the library does NOT implement the documented equivalence
+   rep_min_max<m,M,R> = seq< rep<m,R>, rep_opt<M-m,R>, not_at<R> > when an action of R vetoes).
+   NOT covered (see the comment before section 5): state, rematch, try_catch_raise_nested, inline and match-level
+   actions, throwing actions, raising failure hooks, non-char atoms; if_must only with a single plain must<> part. *)
+Theorem C04_survivors_exact_ext :
+  forall G C vt, action_cfg2 G C vt -> ta_table G (att_of C) -> rmm_stable G (att_of C) vt ->
+  forall f d r input p0 c' evs, (r < length G)%nat -> bytes_ok input ->
+    run G C f d r input p0 = Res Ok c' evs ->
+    exists l, PegT G (att_of C) vt (dA d) (dAct d) r input (pbyte p0) (TOk (rest c') (pbyte (cpos c')) l) /\
+              map sact_bytes (survivors evs) = l.
+Proof. exact survivors_exact2. Qed.
+Print Assumptions C04_survivors_exact_ext.
+
+(* runs that end in a local failure or in an exception: the reference fails / raises, and NO action survives *)
+Theorem C04_survivors_none_ext :
+  forall G C vt, action_cfg2 G C vt -> ta_table G (att_of C) -> rmm_stable G (att_of C) vt ->
+  forall f d r input p0 o c' evs, (r < length G)%nat -> bytes_ok input -> o <> Ok ->
+    run G C f d r input p0 = Res o c' evs ->
+    PegT G (att_of C) vt (dA d) (dAct d) r input (pbyte p0) (match o with Fail => TFail | _ => TRaise end) /\
+    survivors evs = [].
+Proof. exact survivors_none2. Qed.
+Print Assumptions C04_survivors_none_ext.
+
+(* the same for every invocation inside a run: Contrib evs S says that the log segment of the invocation adds exactly S
+   to the survivors of any log it is part of; a failing invocation and one left by an exception contribute nothing,
+   and the only exceptions are the parse errors raised by must<> / raise<> *)
+Theorem C04_invocation_exact_ext :
+  forall G C vt, action_cfg2 G C vt -> ta_table G (att_of C) -> rmm_stable G (att_of C) vt ->
+  forall f d r c o c' evs, (r < length G)%nat -> bytes_ok (rest c) -> eval G C f d r c = Res o c' evs ->
+  match o with
+  | Ok => exists l S, PegT G (att_of C) vt (dA d) (dAct d) r (rest c) (pbyte (cpos c)) (TOk (rest c') (pbyte (cpos c')) l) /\
+                      Contrib evs S /\ map sact_bytes S = l
+  | Fail => PegT G (att_of C) vt (dA d) (dAct d) r (rest c) (pbyte (cpos c)) TFail /\ Contrib evs []
+  | Exc e => PegT G (att_of C) vt (dA d) (dAct d) r (rest c) (pbyte (cpos c)) TRaise /\ (exists w p, e = EParse w p) /\ Contrib evs []
+  end.
+Proof. exact invocation_exact2. Qed.
+Print Assumptions C04_invocation_exact_ext.
+
+Theorem C04_rmm_stable_no_rep_min_max :
+  forall G att vt, (forall r nd mn mx, nth_error G r = Some nd -> nhead nd <> HRepMinMax mn mx) -> rmm_stable G att vt.
+Proof. exact rmm_stable_none. Qed.
+Print Assumptions C04_rmm_stable_no_rep_min_max.
+Theorem C04_rmm_stable_atomic_sub :
+  forall G att vt,
+  (forall r1, rmm_sub G r1 -> exists nd a, nth_error G r1 = Some nd /\ nsubs nd = [] /\ atom_den (nhead nd) a /\ forall f, att f r1 = KNone) ->
+  rmm_stable G att vt.
+Proof. exact rmm_stable_atoms. Qed.
+Print Assumptions C04_rmm_stable_atomic_sub.
+
+(* the extended reference derivation is unique ("THE derivation"), and the executable reference interpreter computes it *)
+Theorem C04_reference_ext_deterministic :
+  forall G att vt A fam r s o x y, PegT G att vt A fam r s o x -> PegT G att vt A fam r s o y -> x = y.
+Proof. exact PegT_deterministic. Qed.
+Print Assumptions C04_reference_ext_deterministic.
+Theorem C04_reference_ext_executable :
+  forall G att vt n A fam r s o x, pegt G att vt n A fam r s o = Some x -> PegT G att vt A fam r s o x.
+Proof. exact pegt_sound. Qed.
+Print Assumptions C04_reference_ext_executable.
+
+(* REFUTED: the side condition rmm_stable cannot be dropped, because the library does not implement the documented
+   equivalence  rep_min_max< m, M, R > = seq< rep< m, R >, rep_opt< M - m, R >, not_at< R > >  (doc/Rule-Reference.md) in
+   the presence of a vetoing action.  Witness: rep_min_max< 0, 2, one<'a'> >, bool apply on one<'a'> returning false on
+   the match that begins at byte 1, input "aa".  The library (and the model) matches 'a' [0,1), the second match [1,2) is
+   vetoed, the rep_opt part stops early and rep_min_max RETURNS TRUE having consumed one byte (it skips the not_at);
+   the documented equivalent evaluates not_at< one<'a'> > at byte 1 with actions off, where one<'a'> matches, and FAILS.
+   (Confirmed on the real library: parse< rep_min_max<0,2,R>, act > returns true, parse< seq< rep<0,R>, rep_opt<2,R>,
+   not_at<R> >, act > returns false.)  By C04_reference_ext_deterministic the reference has no successful derivation. *)
+Definition rf_G : grammar := [ mknode (HRepMinMax 0 2) [1]%nat false; mknode (HOne true PkChar [97%Z]) [] true ].
+Definition rf_vt (f : nat) (r : rid) (b e : N) : bool := N.eqb b 1.
+Definition rf_C : cfg :=
+  mkcfg EolLfCrlf (fun _ r => match r with 1%nat => AKApply true | _ => AKNone end)
+        (fun f r b e => ARet (negb (rf_vt f r (pbyte b) (pbyte e)))) (fun _ _ _ => ARet true) (fun _ => true) (fun _ _ => false).
+Ltac ta_closed := repeat (apply Forall_cons; [cbn; lia|]); apply Forall_nil.
+Theorem C04_rep_min_max_doc_equivalence_refuted :
+  action_cfg2 rf_G rf_C rf_vt /\ ta_table rf_G (att_of rf_C) /\
+  (exists c' evs, run rf_G rf_C 20 (mkdyn true true 0 0 0) 0%nat [97; 97]%N pos0 = Res Ok c' evs /\ rest c' = [97]%N /\
+                  map sact_bytes (survivors evs) = [(1%nat, true, 0%N, 1%N)]) /\
+  PegT rf_G (att_of rf_C) rf_vt true 0 0%nat [97; 97]%N 0 TFail.
+Proof.
+  split.
+  { split; [intros f r; destruct r as [|[|r]]; exact I|]. split; [intros; reflexivity|]. split; [intros; reflexivity|].
+    intros f r nd Ha Hn. destruct r as [|[|r]]; [exfalso; apply Ha; reflexivity | simpl in Hn; inversion Hn; reflexivity | exfalso; apply Ha; reflexivity]. }
+  split.
+  { intros r nd H. destruct r as [|[|r]]; simpl in H; [| |destruct r; discriminate H]; inversion H; subst; split; cbn.
+    - ta_closed.
+    - exists 1%nat. reflexivity.
+    - ta_closed.
+    - split; [reflexivity | exists (SOne [97%N]); split; reflexivity]. }
+  split.
+  { eexists. eexists. split; [vm_compute; reflexivity|]. split; [reflexivity | vm_compute; reflexivity]. }
+  apply (pegt_sound rf_G (att_of rf_C) rf_vt 20). vm_compute. reflexivity.
+Qed.
+Print Assumptions C04_rep_min_max_doc_equivalence_refuted.
+
+(* ---------- examples for section 6 (non-vacuity) ---------- *)
+(* struct N : one<'b'>;  struct G : seq< rep_min_max< 1, 2, one<'a'> >, until< one<';'> >, disable< N >, must< N > >;
+   void apply on G (node 0), bool apply on one<';'> (node 4) which vetoes the match beginning at byte 2, bool apply on N
+   (node 6).  Input "aa;x;bb": rep_min_max takes "aa"; until<> rejects the first ';' (its action ran and vetoed), skips
+   'x', accepts the second ';' [4,5); disable< N > matches 'b' [5,6) silently; must< N > matches [6,7) and fires. *)
+Definition xt_G : grammar :=
+  [ mknode HSeq [1; 3; 5; 7]%nat true;
+    mknode (HRepMinMax 1 2) [2]%nat false;
+    mknode (HOne true PkChar [97%Z]) [] true;
+    mknode HUntil1 [4]%nat false;
+    mknode (HOne true PkChar [59%Z]) [] true;
+    mknode HDisable [6]%nat false;
+    mknode (HOne true PkChar [98%Z]) [] true;
+    mknode HMust [6]%nat false ].
+Definition xt_vt (f : nat) (r : rid) (b e : N) : bool := Nat.eqb r 4 && N.eqb b 2.
+Definition xt_C : cfg :=
+  mkcfg EolLfCrlf (fun _ r => match r with 0%nat => AKApply false | 4%nat => AKApply true | 6%nat => AKApply true | _ => AKNone end)
+        (fun f r b e => ARet (negb (xt_vt f r (pbyte b) (pbyte e)))) (fun _ _ _ => ARet true) (fun _ => true) (fun _ _ => false).
+Definition xt_in : list byte := [97; 97; 59; 120; 59; 98; 98]%N.
+Example C04_example_ext_survivors :
+  action_cfg2 xt_G xt_C xt_vt /\ ta_table xt_G (att_of xt_C) /\ rmm_stable xt_G (att_of xt_C) xt_vt /\
+  exists c' evs, run xt_G xt_C 30 (mkdyn true true 0 0 0) 0%nat xt_in pos0 = Res Ok c' evs /\ rest c' = [] /\
+    map sact_bytes (survivors evs) = [ (4%nat, true, 4%N, 5%N); (6%nat, true, 6%N, 7%N); (0%nat, true, 0%N, 7%N) ] /\
+    In (EApply 0 4 (mkpos 2 1 3) (mkpos 3 1 4)) evs /\
+    PegT xt_G (att_of xt_C) xt_vt true 0 0%nat xt_in 0
+      (TOk [] 7 [ (4%nat, true, 4%N, 5%N); (6%nat, true, 6%N, 7%N); (0%nat, true, 0%N, 7%N) ]).
+Proof.
+  assert (Hta : ta_table xt_G (att_of xt_C)).
+  { intros r nd H. do 8 (destruct r as [|r]; [simpl in H; inversion H; subst; split; cbn;
+      [ta_closed | first [exact I | eexists; reflexivity | split; [reflexivity | eexists; apply atom_sexp_den; vm_compute; reflexivity]]]|]).
+    destruct r; discriminate H. }
+  split.
+  { split; [intros f r; do 7 (destruct r as [|r]; [exact I|]); exact I|]. split; [intros; reflexivity|]. split; [intros; reflexivity|].
+    intros f r nd Ha Hn. do 8 (destruct r as [|r]; [simpl in Hn; inversion Hn; subst; first [reflexivity | exfalso; apply Ha; reflexivity]|]).
+    exfalso; apply Ha; reflexivity. }
+  split; [exact Hta|]. split.
+  { apply rmm_stable_atoms. intros r1 [r [nd [mn [mx [Hn [Hh Hs]]]]]].
+    do 8 (destruct r as [|r]; [simpl in Hn; inversion Hn; subst; first [discriminate Hh | (simpl in Hs; inversion Hs; subst;
+      eexists; exists (SOne [97%N]); split; [reflexivity | split; [reflexivity | split; [split; reflexivity | intros; reflexivity]]])]|]).
+    destruct r; discriminate Hn. }
+  eexists. eexists. split; [vm_compute; reflexivity|]. split; [reflexivity|]. split; [vm_compute; reflexivity|].
+  split; [vm_compute; tauto|].
+  apply (pegt_sound xt_G (att_of xt_C) xt_vt 30). vm_compute. reflexivity.
+Qed.
+Print Assumptions C04_example_ext_survivors.
+
+(* more heads, two action families, no veto.  Nodes: 20 one<'a'>  22 one<'z'>  23 one<'b'>  24 one<'c'>  26 one<'d'>
+   G = seq< sor< try_catch_return_false< seq< a, must< z > > >, success >,      a's action is discarded with the caught raise
+             partial< a, b, c >,                                                  the actions of the prefix a b survive
+             action< F1, star_partial< a, b > >,                                  family 1: apply0 on a only; a b a b a
+             if_then_else< c, a, rep_opt< 2, d > >,
+             strict< c, a >,
+             disable< seq< b, enable< b > > > >                                   only the re-enabled b fires *)
+Definition xu_G : grammar :=
+  [ mknode HSeq [1; 4; 8; 11; 14; 16]%nat true;
+    mknode HSor [2; 13]%nat false;
+    mknode (HTryCatchFalse FParse) [3]%nat false;
+    mknode HSeq [20; 21]%nat false;
+    mknode HPartial [20; 23; 24]%nat false;
+    mknode HFailure [] true; mknode HFailure [] true; mknode HFailure [] true;
+    mknode (HAction 1) [9]%nat false;
+    mknode HStarPartial [20; 23]%nat false;
+    mknode HFailure [] true;
+    mknode HIfThenElse [24; 20; 12]%nat false;
+    mknode (HRepOpt 2) [26]%nat false;
+    mknode HSuccess [] true;
+    mknode HStrict [24; 20]%nat false;
+    mknode HFailure [] true;
+    mknode HDisable [17]%nat false;
+    mknode HSeq [23; 18]%nat false;
+    mknode HEnable [23]%nat false;
+    mknode HFailure [] true;
+    mknode (HOne true PkChar [97%Z]) [] true;
+    mknode HMust [22]%nat false;
+    mknode (HOne true PkChar [122%Z]) [] true;
+    mknode (HOne true PkChar [98%Z]) [] true;
+    mknode (HOne true PkChar [99%Z]) [] true;
+    mknode HFailure [] true;
+    mknode (HOne true PkChar [100%Z]) [] true ].
+Definition xu_acts (f : nat) (r : rid) : akind :=
+  match f, r with
+  | 0%nat, 0%nat => AKApply false | 0%nat, 20%nat => AKApply true | 0%nat, 23%nat => AKApply false | 0%nat, 26%nat => AKApply0 false
+  | 1%nat, 20%nat => AKApply0 false
+  | _, _ => AKNone end.
+Definition xu_C : cfg := mkcfg EolLfCrlf xu_acts (fun f r b e => ARet true) (fun _ _ _ => ARet true) (fun _ => true) (fun _ _ => false).
+Definition xu_in : list byte := [97; 98; 97; 98; 97; 98; 97; 100; 100; 98; 98]%N.
+Definition xu_acts_expected : list tact :=
+  [ (20%nat, true, 0%N, 1%N); (23%nat, true, 1%N, 2%N); (20%nat, false, 3%N, 3%N); (20%nat, false, 5%N, 5%N); (20%nat, false, 7%N, 7%N);
+    (26%nat, false, 8%N, 8%N); (26%nat, false, 9%N, 9%N); (23%nat, true, 10%N, 11%N); (0%nat, true, 0%N, 11%N) ].
+Lemma xu_acts_plain f r : plain_ak (xu_acts f r) /\ (xu_acts f r <> AKNone -> (r = 0 \/ r = 20 \/ r = 23 \/ r = 26)%nat).
+Proof.
+  unfold xu_acts. destruct f as [|[|f]].
+  - do 27 (destruct r as [|r]; [split; [exact I | intros H; first [lia | exfalso; apply H; reflexivity]]|]). split; [exact I | intros H; exfalso; apply H; reflexivity].
+  - do 27 (destruct r as [|r]; [split; [exact I | intros H; first [lia | exfalso; apply H; reflexivity]]|]). split; [exact I | intros H; exfalso; apply H; reflexivity].
+  - split; [exact I | intros H; exfalso; apply H; reflexivity].
+Qed.
+Example C04_example_ext_heads :
+  action_cfg2 xu_G xu_C (fun _ _ _ _ => false) /\ ta_table xu_G (att_of xu_C) /\ rmm_stable xu_G (att_of xu_C) (fun _ _ _ _ => false) /\
+  exists c' evs, run xu_G xu_C 40 (mkdyn true true 0 0 0) 0%nat xu_in pos0 = Res Ok c' evs /\ rest c' = [] /\
+    map sact_bytes (survivors evs) = xu_acts_expected /\
+    In (EApply 0 20 (mkpos 0 1 1) (mkpos 1 1 2)) (firstn 12 evs) /\
+    PegT xu_G (att_of xu_C) (fun _ _ _ _ => false) true 0 0%nat xu_in 0 (TOk [] 11 xu_acts_expected).
+Proof.
+  split.
+  { split; [intros f r; exact (proj1 (xu_acts_plain f r))|]. split; [intros; reflexivity|]. split; [intros; reflexivity|].
+    intros f r nd Ha Hn. destruct (proj2 (xu_acts_plain f r) Ha) as [-> | [-> | [-> | ->]]]; simpl in Hn; inversion Hn; reflexivity. }
+  split.
+  { intros r nd H. do 27 (destruct r as [|r]; [simpl in H; inversion H; subst; split; cbn;
+      [ta_closed | first [exact I | eexists; reflexivity | eexists; eexists; reflexivity | eexists; eexists; eexists; reflexivity
+                          | split; [reflexivity | eexists; apply atom_sexp_den; vm_compute; reflexivity]]]|]).
+    destruct r; discriminate H. }
+  split.
+  { apply rmm_stable_none. intros r nd mn mx Hn Hh.
+    do 27 (destruct r as [|r]; [simpl in Hn; inversion Hn; subst; discriminate Hh|]). destruct r; discriminate Hn. }
+  eexists. eexists. split; [vm_compute; reflexivity|]. split; [reflexivity|]. split; [vm_compute; reflexivity|].
+  split; [vm_compute; tauto|].
+  apply (pegt_sound xu_G (att_of xu_C) (fun _ _ _ _ => false) 40). vm_compute. reflexivity.
+Qed.
+Print Assumptions C04_example_ext_heads.
